@@ -18,6 +18,7 @@ import (
 	"encoding/json"
 	"fmt"
 	"os"
+	"path/filepath"
 	"regexp"
 	"sort"
 	"strconv"
@@ -167,21 +168,16 @@ func drawParams(r *core.Rng, t *template, m *mem) params {
 	if mode < 15 {
 		// every base value such that all accesses through it are in bounds (when
 		// the static offsets allow it): the whole sequence runs
-		ceil := make([]uint64, len(t.Vars))
-		for _, a := range acc {
-			w, off := width(a)
-			if off+w > ceil[a.Var] {
-				ceil[a.Var] = off + w
-			}
-			if a.SrcVar >= 0 && opByName[a.Op].Class == clCopy && w > ceil[a.SrcVar] {
-				ceil[a.SrcVar] = w
-			}
-		}
+		ceil, atomic := t.ceilings(p.P1)
 		for i := range t.Vars {
-			setVar(&t.Vars[i], uint32(pickInb(r, m.size(), ceil[i]+uint64(r.Intn(2))*8)))
+			b := uint32(pickInb(r, m.size(), ceil[i]+uint64(r.Intn(2))*8))
+			if atomic[i] && r.Chance(5, 6) {
+				b &^= 7
+			}
+			setVar(&t.Vars[i], b)
 		}
 	}
-	if mode >= 7 {
+	if mode >= 9 {
 		// aim one access at a boundary
 		a := acc[r.Intn(len(acc))]
 		o := opByName[a.Op]
@@ -226,6 +222,12 @@ func drawParams(r *core.Rng, t *template, m *mem) params {
 // ---- parent ----
 
 func run(c *core.Ctx) int {
+	// stale witnesses of earlier runs of the same tier and seed (the children
+	// directory is left alone: another run may be using it)
+	old, _ := filepath.Glob(filepath.Join(c.Out, fmt.Sprintf("violation-%s-%d-*.json", c.Tier, c.Seed)))
+	for _, f := range old {
+		os.Remove(f)
+	}
 	n := c.N(6000, 150000)
 	tuples := c.N(12, 40)
 	if s := os.Getenv("C02_N"); s != "" { // development aid: smaller workload
@@ -442,14 +444,21 @@ func handleCrash(c *core.Ctx, ci caseIn, cr *core.Crash) int {
 	where := "outside every reservation"
 	var hit *dynAccess
 	formula := ""
-	pinned := false
+	localised := ""
 	if region >= 0 {
 		delta := int64(fault) - int64(bases[region])
 		cands := matchFault(exp.Trace, delta, region, len(bases), rc.Moving)
 		if len(cands) > 0 {
 			k := pinCulprit(c, ci, runIdx, tuple, cands)
 			hit, formula = cands[k].a, cands[k].formula
-			pinned = k >= 0 && (len(cands) == 1 || pinOK)
+			switch {
+			case len(cands) == 1:
+				localised = "only this access explains the address"
+			case pinOK:
+				localised = fmt.Sprintf("%d accesses explain the address; chosen by re-running with the function truncated after each of them (best effort: truncation changes use counts)", len(cands))
+			default:
+				localised = fmt.Sprintf("%d accesses explain the address; not localised (budget), last one shown", len(cands))
+			}
 		}
 		switch {
 		case delta < 0:
@@ -466,7 +475,7 @@ func handleCrash(c *core.Ctx, ci caseIn, cr *core.Crash) int {
 		// only: which of several accesses with the same address faulted depends
 		// on use counts that the localisation by truncation perturbs)
 		sig += formula + ":" + coarse(hit.Class) + ":base=" + strings.SplitN(hit.VarKind, ":", 2)[0]
-		_ = pinned
+
 	} else {
 		sig += "unmatched:"
 		switch {
@@ -482,6 +491,7 @@ func handleCrash(c *core.Ctx, ci caseIn, cr *core.Crash) int {
 	detail := fmt.Sprintf("%s: process fault at %#x = %s while executing tuple %d (%s); memory %d pages initially (max %d, shared=%v, imported=%v)",
 		rc, fault, where, tuple, pstr(tuples, tuple), t.InitPages, t.MaxPages, t.Shared, t.Imported)
 	if hit != nil {
+		detail += "; " + localised
 		detail += fmt.Sprintf("; matches access #%d %s base=%#x (%s) offset=%#x: faulting address = membase + %s; model: mem size %#x, since last use of this base value: %s",
 			hit.ID, hit.Op, hit.Base, hit.VarKind, hit.Off, formula, hit.Size, hit.Since)
 	}
@@ -864,15 +874,14 @@ func runOne(t *template, tuples []params, bin, xbin []byte, ri int, rc runCfg, o
 		}
 		// ---- compare ----
 		w := func() map[string]any {
-			return map[string]any{"tuple": ti, "params": p.String(), "expected": map[string]any{"trap": exp.Trap, "stopped_at_access": exp.Progress, "results": hex64(exp.Results)},
+			return map[string]any{"tuple": ti, "params": p.String(), "expected": map[string]any{"trap": exp.Trap, "accesses_started": exp.Progress, "results": hex64(exp.Results)},
 				"got": map[string]any{"error": errStr(err), "progress_global": gotProgress, "results": hex64(res)}, "model_trace": exp.Trace,
 				"tuples_before": tupleStrings(tuples[:ti])}
 		}
-		culprit := func(id int) *dynAccess {
-			for i := len(exp.Trace) - 1; i >= 0; i-- {
-				if exp.Trace[i].ID == id {
-					return &exp.Trace[i]
-				}
+		// the progress global counts started accesses, so it indexes the model's trace
+		nth := func(n int) *dynAccess {
+			if n >= 1 && n <= len(exp.Trace) {
+				return &exp.Trace[n-1]
 			}
 			return nil
 		}
@@ -895,18 +904,9 @@ func runOne(t *template, tuples []params, bin, xbin []byte, ri int, rc runCfg, o
 		sig, detail := "", ""
 		fatal := false // the instance cannot be trusted afterwards
 		trapOK := got == exp.Trap || (exp.Trap == "either" && (got == "oob" || got == "unaligned"))
-		// where did the real engine stop relative to the model's trace?
-		stopIdx := -1 // index in exp.Trace of the access the progress global names
-		for i := range exp.Trace {
-			if exp.Trace[i].ID == gotProgress {
-				stopIdx = i
-				break
-			}
-		}
-		last := len(exp.Trace) - 1
 		switch {
 		case strings.HasPrefix(got, "error:"):
-			a := culprit(gotProgress)
+			a := nth(gotProgress)
 			fatal = true
 			ew := words(reNum.ReplaceAllString(got[6:], "N"), 8)
 			switch {
@@ -921,27 +921,26 @@ func runOne(t *template, tuples []params, bin, xbin []byte, ri int, rc runCfg, o
 				sig = "out-of-bounds-access:unexpected-error:" + desc(a) + ":" + ew
 				detail = "model: trap; got " + got + " at " + long(a)
 			}
-		case got != "" && (exp.Trap == "" || (stopIdx >= 0 && stopIdx < last && gotProgress != exp.Progress)):
+		case got != "" && (exp.Trap == "" || gotProgress < exp.Progress):
 			// the engine trapped at an access the model executes without trap
-			a := culprit(gotProgress)
+			a := nth(gotProgress)
 			sig = "spurious-trap:" + got + ":" + desc(a)
 			detail = "model: no trap at this access; got " + got + " at " + long(a)
 		case got == "" && exp.Trap != "":
-			a := culprit(exp.Progress)
+			a := nth(exp.Progress)
 			sig = "missing-trap:" + desc(a)
 			detail = "model: trap (" + exp.Trap + "), the call returned normally; " + long(a)
-		case got != "" && gotProgress != exp.Progress:
-			a := culprit(exp.Progress)
+		case got != "" && gotProgress > exp.Progress:
+			a := nth(exp.Progress)
 			sig = "missing-trap:" + desc(a)
-			detail = fmt.Sprintf("model: trap (%s) at this access, the engine went on and trapped (%s) at access #%d; %s", exp.Trap, got, gotProgress, long(a))
+			detail = fmt.Sprintf("model: trap (%s) at this access (#%d started), the engine went on and trapped (%s) at the access started as #%d; %s", exp.Trap, exp.Progress, got, gotProgress, long(a))
 		case !trapOK:
-			a := culprit(exp.Progress)
+			a := nth(exp.Progress)
 			sig = "wrong-trap-kind:expected=" + exp.Trap + ",got=" + got + ":" + desc(a)
 			detail = long(a)
 		case gotProgress != exp.Progress:
-			a := culprit(exp.Progress)
-			sig = "returned-but-progress-differs:" + desc(a)
-			detail = fmt.Sprintf("model's last access is #%d, progress global says #%d; %s", exp.Progress, gotProgress, long(a))
+			sig = "returned-but-progress-differs"
+			detail = fmt.Sprintf("model executes %d accesses, the progress global counted %d", exp.Progress, gotProgress)
 		case exp.Trap == "" && !sameResults(t, exp.Results, res):
 			k := firstDiffResult(t, exp.Results, res)
 			var a *dynAccess
